@@ -103,14 +103,15 @@ def py_check_history(events):
     return None
 
 
-def stress(ctx, binary, g, n, names, seed, race):
+def stress(ctx, binary, g, n, names, seed, race, lockstep=False):
     env = vlib.go_env()
     if race:
         env["GORACE"] = "halt_on_error=0"
-    p = subprocess.run([binary, "symstress", str(g), str(n), str(names), str(seed)], stdout=subprocess.PIPE,
+    p = subprocess.run([binary, "symstress", str(g), str(n), str(names), str(seed)] + (["lockstep"] if lockstep else []),
+                       stdout=subprocess.PIPE,
                        stderr=subprocess.PIPE, text=True, env=env, timeout=600)
     events = [tuple(l.split(" ")) for l in p.stdout.split("\n") if l]
-    inp = {"stress": {"goroutines": g, "ops": n, "names": names, "seed": seed, "race": race}}
+    inp = {"stress": {"goroutines": g, "ops": n, "names": names, "seed": seed, "race": race, "lockstep": lockstep}}
     ctx.case(("stress", g, n, names, seed, race), sample=None)
     ctx.stat("stress-events", len(events))
     if p.returncode != 0:
@@ -152,16 +153,16 @@ def run(ctx):
             if s.get("race"):
                 ok, log = vlib.build_harness(race=True)
                 binary = vlib.ELKH + "-race"
-            stress(ctx, binary, s["goroutines"], s["ops"], s["names"], s["seed"], s.get("race", False))
+            stress(ctx, binary, s["goroutines"], s["ops"], s["names"], s["seed"], s.get("race", False), s.get("lockstep", False))
         return
     lines = vlib.corpus_lines("C26") + [gen_line(ctx.rng, ctx) for _ in range(ctx.n(2000, 30000))]
-    vlib.correspond(ctx, lines, oracle=oracle, minimise=minimise, label="SymbolTable")
+    vlib.correspond(ctx, lines, oracle=oracle, minimise=minimise, label="SymbolTable", max_report=2)
     ok = True
     configs = [(2, 200, 6), (8, 120, 12), (64, 40, 24), (8, 300, 3), (32, 60, 40)]
     runs = ctx.n(20, 60)
     for k in range(runs):
         g, n, names = configs[k % len(configs)]
-        ok &= stress(ctx, vlib.ELKH, g, n, names, ctx.seed * 100000 + k, False)
+        ok &= stress(ctx, vlib.ELKH, g, n, names, ctx.seed * 100000 + k, False, lockstep=(k % 2 == 1))
     ctx.obligation(f"stress: okSym accepts the histories of {runs} concurrent runs (G up to 64)", ok, "history-check")
     if not ctx.quick:
         built, log = vlib.build_harness(race=True)
@@ -171,5 +172,5 @@ def run(ctx):
             okr = True
             for k in range(40):
                 g, n, names = configs[k % len(configs)]
-                okr &= stress(ctx, vlib.ELKH + "-race", g, n, names, ctx.seed * 100000 + 5000 + k, True)
+                okr &= stress(ctx, vlib.ELKH + "-race", g, n, names, ctx.seed * 100000 + 5000 + k, True, lockstep=(k % 2 == 1))
             ctx.obligation("stress under the race detector: no data race reported, okSym accepts (40 runs)", okr, "race")
